@@ -24,11 +24,11 @@ type Ctx struct {
 	Replay string
 	Rng    *rand.Rand
 
-	header   string // Coq preamble of every case file
-	caseType string // Coq type of a case (default "case")
-	cases   []string // Coq terms, one per case
-	infos   []CaseInfo
-	perFile int
+	header   string   // Coq preamble of every case file
+	caseType string   // Coq type of a case (default "case")
+	cases    []string // Coq terms, one per case
+	infos    []CaseInfo
+	perFile  int
 
 	Meta Meta
 	seen map[string]bool
